@@ -14,6 +14,7 @@ import hashlib
 import json
 import multiprocessing
 import os
+import signal
 import sys
 import time
 import traceback
@@ -100,19 +101,45 @@ def load_findings(prop_id):
 
 
 # ---------------------------------------------------------------- one shard
+CASE_WATCHDOG_S = 240       # a single case normally takes milliseconds to a few seconds; this only stops a runaway reference model
+
+
+class CaseWatchdog(BaseException):
+    pass
+
+
+def _on_alarm(signum, frame):
+    raise CaseWatchdog()
+
+
 def _shard(args):
     modname, paths, root, tier, seed, shard, nex, known_ids = args
     import importlib
     mod = importlib.import_module(modname)
     from hypothesis import given, settings, seed as hseed, HealthCheck, Phase
+    from models import rx as _rx, lined as _lined
     os.makedirs(root, exist_ok=True)
+    signal.signal(signal.SIGALRM, _on_alarm)
     env = Env(paths, root, tier, seed, shard)
     st = {"evals": 0, "nt": set(), "classes": {}, "samples": [], "known": {}, "inconc": 0,
           "fail": None, "excluded": {}, "error": None}
     strat = mod.strategy(tier, shard) if getattr(mod, "SHARD_AWARE", False) else mod.strategy(tier)
 
     def body(case):
-        out = mod.run_case(env, case)
+        try:
+            signal.setitimer(signal.ITIMER_REAL, CASE_WATCHDOG_S)
+            try:
+                out = mod.run_case(env, case)
+            finally:
+                signal.setitimer(signal.ITIMER_REAL, 0)
+        except CaseWatchdog:
+            from . import probe as _probe
+            _probe.drop_all()
+            out = Outcome(True, False, ["harness_case_watchdog_inconclusive"], inconclusive=True)
+        except _rx.Budget:
+            out = Outcome(True, False, ["reference_model_budget_exceeded"], inconclusive=True)
+        except _lined.TooBig:
+            out = Outcome(True, False, ["excluded_text_grows_geometrically"])
         failed = (not out.ok) and not (out.known and out.known in known_ids)
         if st["fail"] is None:
             st["evals"] += 1
@@ -164,8 +191,14 @@ def _shard(args):
 def replay_case(mod, env, case, times=3):
     """Re-execute a concrete case bypassing Hypothesis; returns (n_fail, last_outcome)."""
     nfail, out = 0, None
+    from models import rx as _rx, lined as _lined
     for _ in range(times):
-        out = mod.run_case(env, case)
+        try:
+            out = mod.run_case(env, case)
+        except _rx.Budget:
+            out = Outcome(True, False, ["reference_model_budget_exceeded"], inconclusive=True)
+        except _lined.TooBig:
+            out = Outcome(True, False, ["excluded_text_grows_geometrically"])
         if not out.ok:
             nfail += 1
     return nfail, out
